@@ -15,6 +15,7 @@ import math
 import re
 import subprocess
 
+import dbparse
 import vlib
 from gens import gas as G
 
@@ -25,6 +26,9 @@ TOL_EOS = 1e-4
 TOL_PHI = 1e-6
 LNPHI_LO, LNPHI_HI = -4.6, 4.44
 FINDING_KEY = "fixedV-numerical-negative-PR-pressure"
+FINDING2_KEY = "fixedV-vm-iteration-accepted-early"
+MINIMAL_FINDING2 = ("SOLUTION 1\n temp 10\n -water 100\nGAS_PHASE 1\n -fixed_volume\n -volume 0.01\n -temperature 10\n H2O(g) 1.0\nEND\n"
+                    "# phreeqc.dat: run completes; GAS_P=0.0122698, GAS_VM=1890.22, 10^SI/(PR_PHI*PR_P)=1.0016176 = EOS-consistent V_m / GAS_VM")
 MINIMAL_FINDING = ("KNOBS\n -numerical_fixed_volume true\n -force_numerical_fixed_volume true\nSOLUTION 1\n temp 0\n -water 2\n"
                    "GAS_PHASE 1\n -fixed_volume\n -volume 1\n -temperature 0\n CO2(g) 112.232\nEND\n"
                    "# phreeqc.dat: run completes; GAS_P=45.197, GAS_VM=0.0762, PR_PHI*PR_P=30.77 but 10^SI(CO2(g))=61.54")
@@ -134,6 +138,59 @@ def parse_gbp(text, table=None, stop_at_end=False):
     return table
 
 
+def parse_crit(text, table=None, stop_at_end=False):
+    """Independent reading of the critical constants of the PHASES blocks of a database / input TEXT (lexical layer of
+    tools/dbparse.py, option matching by prefix against the PHASES option list): {lower-case name: (name, T_c, P_c, Omega)}.
+    A later definition of a phase replaces the earlier one completely (constants not repeated are 0)."""
+    table = {} if table is None else table
+    lines = dbparse.logical_lines(text)
+    i = 0
+    inside = False
+    cur = None
+    while i < len(lines):
+        _ln, line = lines[i]
+        kind, opt, rest = dbparse.classify(line, dbparse.PHASE_OPTS)
+        i += 1
+        if kind == "keyword":
+            if stop_at_end and opt == "end":
+                break
+            inside = opt == "phases"
+            cur = None
+            continue
+        if not inside:
+            continue
+        if kind == "default":
+            name = line.split()[0]
+            cur = None
+            if i < len(lines) and dbparse.classify(lines[i][1], dbparse.PHASE_OPTS)[0] == "default":
+                i += 1                                   # the equation line
+                cur = name.lower()
+                table[cur] = [name, 0.0, 0.0, 0.0]
+            continue
+        if kind == "option" and cur is not None and opt in ("t_c", "p_c", "omega"):
+            m = re.match(r"\s*([-+]?(\d+\.?\d*([eE][-+]?\d+)?|\.\d+([eE][-+]?\d+)?))", rest.replace("=", " "))
+            table[cur][{"t_c": 1, "p_c": 2, "omega": 3}[opt]] = float(m.group(1)) if m else 0.0
+    return table
+
+
+def crit_lines(table):
+    """`<hexname> <tc> <pc> <omega>` for the gases that have critical constants, in name order"""
+    return [f"{G.hs(v[0])} {G.hd(v[1])} {G.hd(v[2])} {G.hd(v[3])}" for _k, v in sorted(table.items()) if v[1] > 0 and v[2] > 0]
+
+
+def crit_diff(engine_gas_lines, table):
+    """the engine's phase records (t_c, p_c, omega of every phase with critical constants) against the reading of the text"""
+    eng = {}
+    for g in engine_gas_lines:
+        w = g.split()
+        eng[G.uhs(w[0])] = tuple(G.ud(x) for x in w[1:4])
+    txt = {v[0]: (v[1], v[2], v[3]) for v in table.values() if v[1] > 0 and v[2] > 0}
+    for name in sorted(set(eng) | set(txt)):
+        if eng.get(name) != txt.get(name):
+            return f"critical constants of {name}: engine {eng.get(name)}, text {txt.get(name)}"
+    return None
+
+
 def db_text(db):
     return db[1] if isinstance(db, tuple) else (DBDIR / db).read_text(errors="replace")
 
@@ -176,11 +233,13 @@ def db_consts(exe, db):
     out, err = harness(exe, db_op(db) + "\ndump\n")
     if err or not out or out[0] != "D 0":
         raise RuntimeError(f"cannot load database {db if not isinstance(db, tuple) else 'synthetic'}: {err} {out[:1] if out else ''}")
-    gases = [ln[2:] for ln in out if ln.startswith("G ")]
-    names = [G.uhs(g.split()[0]) for g in gases]
+    egases = [ln[2:] for ln in out if ln.startswith("G ")]
     emap = engine_map(out)
     tmap = parse_gbp(db_text(db), stop_at_end=True)
-    return dict(names=names, gas_lines=gases, engine=emap, text=tmap, pre=pre_lines(gases, tmap))
+    crit = parse_crit(db_text(db), stop_at_end=True)
+    gases = crit_lines(crit)
+    names = [G.uhs(g.split()[0]) for g in gases]
+    return dict(names=names, gas_lines=gases, engine_gas_lines=egases, crit=crit, engine=emap, text=tmap, pre=pre_lines(gases, tmap))
 
 
 # ------------------------------------------------------------------------------------------------ (2) calc_PR tie
@@ -285,7 +344,7 @@ def tie_calc_pr(ctx, exe, ok):
     hist = {}
     n_per_db = ctx.n(4000, 40000) if ok else 40000
     text = (DBDIR / "phreeqc.dat").read_text(errors="replace")
-    dbs = ["phreeqc.dat", "pitzer.dat", "core10.dat", "Amm.dat"]
+    dbs = ["phreeqc.dat", "pitzer.dat", "core10.dat", "Amm.dat", "Kinec_v3.dat", "frezchem.dat"]
     nsyn = ctx.n(3, 12)
     for _ in range(nsyn):
         t, mode = G.synthetic_db(ctx.rng, text)
@@ -299,7 +358,7 @@ def tie_calc_pr(ctx, exe, ok):
         dc = db_consts(exe, db)
         names, pre, nk = dc["names"], dc["pre"], len(dc["text"])
         label = db if not isinstance(db, tuple) else f"synthetic({db[2]})"
-        md = map_diff(dc["engine"], dc["text"])
+        md = map_diff(dc["engine"], dc["text"]) or crit_diff(dc["engine_gas_lines"], dc["crit"])
         sym = symmetric_in_lean(ctx, dc["engine"])
         obligations["maps_checked"] += 1
         if (md or not sym) and map_broken is None:
@@ -368,7 +427,7 @@ def tie_calc_pr(ctx, exe, ok):
     hist.update(branches)
     hist["binary_parameter_maps_tied_to_text_and_symmetric"] = obligations["maps_checked"]
     if map_broken and not ctx.violations:
-        ctx.violation("the engine's gas_binary_parameters map differs from the GAS_BINARY_PARAMETERS text / is not symmetric "
+        ctx.violation("the engine's critical constants / gas_binary_parameters map differ from the database text, or the map is not symmetric "
                       "(no calc_PR case contradicting the equation of state was found): " + str(map_broken["difference"]),
                       map_broken, found_input=False)
     if broken and not ctx.violations:
@@ -377,10 +436,79 @@ def tie_calc_pr(ctx, exe, ok):
     return evals, distinct, hist
 
 
+# ------------------------------------------------------------------------------------------------ (2b) gate constants
+def tie_gate_constants(ctx):
+    """translator-style tie of the gas rows of the convergence gate: the constants of the damping ladder of
+    calc_gas_pressures, of the fixed-volume pressure test of residuals and of mb_gases are re-read from the source on every run;
+    the formulas rebuilt from them are compared with the Lean model (`pmodel gas`: damp / ptest / gasin) at probe points."""
+    src = (vlib.REPO / "src" / "phreeqcpp" / "model.cpp").read_text(errors="replace")
+    pcpp = (vlib.REPO / "src" / "phreeqcpp" / "Phreeqc.cpp").read_text(errors="replace")
+    num = r"([0-9.]+(?:e[-+]?[0-9]+)?)"
+    m_lo = re.search(r"if \(V_m < " + num + r"\)\s*\{\s*V_m = " + num + r";\s*\}\s*else if \(V_m > " + num + r"\)\s*\{\s*V_m = " + num + ";", src)
+    ladder = re.findall(r"if \(V_m < " + num + r"\)\s*V_m = \(" + num + r" \* gas_phase_ptr->Get_v_m\(\) \+ V_m\) / " + num + ";", src)
+    m_else = re.search(r"else\s*V_m = \(" + num + r" \* gas_phase_ptr->Get_v_m\(\) \+ V_m\) / " + num + ";", src)
+    m_pt = re.search(r"fabs\(last_patm_x - patm_x\) > " + num + r" \|\| fabs\(last_patm_x - gas_phase_ptr->Get_total_p\(\)\) > " + num, src)
+    m_mb = re.search(r"gas_unknown->f > gas_phase_ptr->Get_total_p\(\) \+ " + num + r" \|\|\s*gas_unknown->moles > MIN_TOTAL", src)
+    m_mt = re.search(r"\n\s*MIN_TOTAL\s*=\s*" + num + ";", pcpp)
+    if not (m_lo and len(ladder) == 4 and m_else and m_pt and m_mb and m_mt):
+        ctx.violation("cannot re-read the gas rows of the convergence gate from model.cpp (code shape not recognised)",
+                      {"kind": "gate-shape", "found": [bool(m_lo), len(ladder), bool(m_else), bool(m_pt), bool(m_mb), bool(m_mt)]},
+                      found_input=False)
+        return 0
+    lo, lov, hi, hiv = (float(x) for x in m_lo.groups())
+    steps = [(float(a), float(w), float(d)) for a, w, d in ladder]
+    ew, ed = float(m_else.group(1)), float(m_else.group(2))
+    pt1, pt2 = float(m_pt.group(1)), float(m_pt.group(2))
+    eps_mb, min_total = float(m_mb.group(1)), float(m_mt.group(1))
+
+    def damp(vo, vol, n):
+        v = vol / n
+        v = lov if v < lo else hiv if v > hi else v
+        for a, w, d in steps:
+            if v < a:
+                return (w * vo + v) / d
+        return (ew * vo + v) / ed
+
+    rng = ctx.rng
+    ops, want = [], []
+    edges = [lo, hi] + [a for a, _w, _d in steps]
+    for i in range(400):
+        v = rng.choice(edges) * rng.choice([1.0, 0.999999, 1.000001]) if i % 3 == 0 else 10 ** rng.uniform(-2.5, 4.5)
+        n = 10 ** rng.uniform(-4, 2)
+        vo = 10 ** rng.uniform(-2, 4)
+        vol = v * n
+        ops.append(f"damp {G.hd(vo)} {G.hd(vol)} {G.hd(n)}")
+        want.append("DV " + G.hd(damp(vo, vol, n)))
+    for i in range(200):
+        last = 10 ** rng.uniform(-2, 3)
+        d1 = rng.choice([0.0, pt1, -pt1, pt1 * 1.001, -pt1 * 1.001, pt1 * 0.999, rng.uniform(-3, 3) * pt1])
+        d2 = rng.choice([0.0, pt2, -pt2 * 1.001, pt2 * 0.999, rng.uniform(-3, 3) * pt2])
+        patm, tot = last - d1, last - d2
+        ops.append(f"ptest {G.hd(last)} {G.hd(patm)} {G.hd(tot)}")
+        want.append("PT " + ("true" if abs(last - patm) > pt1 or abs(last - tot) > pt2 else "false"))
+    for i in range(200):
+        ptot = 10 ** rng.uniform(-2, 3)
+        f = ptot + rng.choice([0.0, eps_mb, eps_mb * 2, -eps_mb, 1e-3, -1e-3, eps_mb * 0.5])
+        moles = rng.choice([0.0, min_total, min_total * 2, min_total / 2, 1e-12, 1.0])
+        ops.append(f"gasin {G.hd(f)} {G.hd(ptot)} {G.hd(moles)} {G.hd(min_total)}")
+        want.append("GI " + ("true" if f > ptot + eps_mb or moles > min_total else "false"))
+    got = pm(ctx, "\n".join(ops) + "\n")
+    for o, w, g in zip(ops, want, got):
+        if w != g.strip():
+            ctx.violation("the gas rows of the convergence gate in model.cpp no longer are the ones the theorems are about "
+                          f"(constants re-read from the source: clamp {lo}/{hi}, ladder {steps}, else {ew}/{ed}, pressure test {pt1}/{pt2}, "
+                          f"mb_gases {eps_mb}, MIN_TOTAL {min_total})", {"kind": "gate", "op": o, "source_formula": w, "model": g},
+                          found_input=False)
+            break
+    ctx.cov["gate_constants_from_source"] = dict(clamp=[lo, hi], ladder=steps, otherwise=[ew, ed], pressure_test=[pt1, pt2],
+                                                 mb_gases=eps_mb, MIN_TOTAL=min_total, probes=len(ops))
+    return len(ops)
+
+
 # ------------------------------------------------------------------------------------------------ (3) real runs
 def parse_run(lines):
     """harness output of one `run` → dict(rc, err, warn, rows=[{heading: value}], nfv)"""
-    res = dict(rc=None, err="", warn="", rows=[], nfv=0, kmap=engine_map(lines))
+    res = dict(rc=None, err="", warn="", rows=[], nfv=0, kmap=engine_map(lines), glines=[ln[2:] for ln in lines if ln.startswith("G ")])
     heads = None
     for ln in lines:
         w = ln.split()
@@ -504,10 +632,29 @@ def judge(ctx, case, res, pre):
         if not (0.01 <= p <= 1000 or 0.01 <= e["p_of_vm"] <= 1000) or not (273.15 <= tk <= 473.15):
             cnt["outside_0.01_1000_atm"] = cnt.get("outside_0.01_1000_atm", 0) + 1
             continue
+        # known departure `fixedV-vm-iteration-accepted-early`: the damped fixed-point iteration of the molar volume
+        # (calc_gas_pressures) is accepted before it reaches its fixed point; the engine's internal V_m is r * GAS_VM and
+        # 10^SI_i = r * phi_i * p_i for every component with the same r. Set aside exactly when: one common r (1e-6), |r-1| above
+        # the tolerance, |r-1|*P within (w+1)*0.001 atm (the code's absolute pressure test times the damping weight) and
+        # GAS_P = EOS(r*GAS_VM) within 1e-4. The rest of the row is then judged at the internal volume r*GAS_VM.
+        v_internal = None
+        if gtype != "fixedP":
+            ratios = [10 ** si[i] / (phi[i] * pp[i]) for i in range(len(gases)) if n[i] > 0 and si[i] > -90 and phi[i] * pp[i] > 0]
+            if ratios and abs(ratios[0] - 1) > TOL_EOS and all(rel(r, ratios[0]) <= 1e-6 for r in ratios):
+                r0 = ratios[0]
+                w = 8 if vm < 0.02 else 6 if vm < 0.03 else 4 if vm < 0.05 else 2 if vm < 0.07 else 1
+                if abs(r0 - 1) * p <= (w + 1) * 0.001:
+                    er = parse_eos(pm(ctx, "\n".join(pre + [eos_line(p, tk, vm * r0, pairs)]) + "\n")[-1])
+                    if er is not None and rel(er["p_of_vm"], p) <= TOL_EOS:
+                        v_internal = vm * r0
+                        cnt["vm_iteration_accepted_early"] = cnt.get("vm_iteration_accepted_early", 0) + 1
+                        checks.append(("FINDING:" + FINDING2_KEY, abs(r0 - 1), TOL_EOS,
+                                       f"fixed-volume Peng-Robinson phase accepted off the fixed point of its V_m iteration: 10^SI = {r0:.9g} * phi * p "
+                                       f"for every gas, GAS_P={p} = EOS({r0:.9g} * GAS_VM) but EOS(GAS_VM={vm}) = {e['p_of_vm']} (T={tk}, gases={gases})"))
         tr = three_root(ctx, pre, tk, vm, pairs)
         if tr:
             cnt["three_root_region"] = cnt.get("three_root_region", 0) + 1
-        else:
+        elif v_internal is None:
             cnt["eos_judged"] = cnt.get("eos_judged", 0) + 1
             chk("PR_EOS", rel(e["p_of_vm"], p), TOL_EOS, f"P={p} but Peng-Robinson at V_m={vm}, T={tk}, x={x} gives {e['p_of_vm']}")
         chk("sum_partial", rel(sum(pp), p), TOL_EOS, f"partial pressures sum to {sum(pp)}, total {p}")
@@ -519,14 +666,14 @@ def judge(ctx, case, res, pre):
             ks = [round(math.log2(r)) if r > 0 else 0 for r in ratios]
             if ratios and ks[0] >= 1 and all(k == ks[0] and abs(r / 2 ** k - 1) <= TOL_EOS for r, k in zip(ratios, ks)):
                 cnt["negative_PR_pressure_vm_doubled"] = cnt.get("negative_PR_pressure_vm_doubled", 0) + 1
-                checks.append(("FINDING", float(2 ** ks[0]), TOL_EOS,
+                checks.append(("FINDING:" + FINDING_KEY, float(2 ** ks[0]), TOL_EOS,
                                f"fixed-volume Peng-Robinson phase, PR pressure at the reported V_m={vm} is {e['p_of_vm']} <= 0: "
                                f"10^SI = {2 ** ks[0]} * phi * p for every component (P={p}, T={tk}, gases={gases})"))
                 continue
         # phi: the reported P and V_m agree with the EOS only within 1e-4, so the EOS value of phi is taken at each of the
         # consistent readings of the reported state: (P, V_m), (P_eos(V_m), V_m), (P, V_m(P))
         alts = [e]
-        for (pa, va) in ((e["p_of_vm"], vm), (p, e["vm_of_p"])):
+        for (pa, va) in ((e["p_of_vm"], vm), (p, e["vm_of_p"])) + (((p, v_internal),) if v_internal else ()):
             if pa > 0 and va > 0 and math.isfinite(pa) and math.isfinite(va):
                 ea = parse_eos(pm(ctx, "\n".join(pre + [eos_line(pa, tk, va, pairs)]) + "\n")[-1])
                 if ea is not None:
@@ -545,7 +692,7 @@ def judge(ctx, case, res, pre):
                 cnt["phi_clamped"] = cnt.get("phi_clamped", 0) + 1
             chk("phi_in_clamp", 0.0 if math.exp(LNPHI_LO) * (1 - 1e-9) <= phi[i] <= math.exp(LNPHI_HI) * (1 + 1e-9) else 1.0, 0.5,
                 f"{g}: PR_PHI={phi[i]} outside [0.01, 85]")
-            if si[i] > -90:
+            if si[i] > -90 and v_internal is None:
                 chk("fugacity_vs_SI", abs(phi[i] * pp[i] - 10 ** si[i]) / (phi[i] * p), TOL_EOS,
                     f"{g}: fugacity phi*p={phi[i] * pp[i]} but 10^SI={10 ** si[i]}")
     return checks, cnt
@@ -580,19 +727,23 @@ def real_runs(ctx, exe, ok):
         stats["completed"] += 1
         dc = consts[case["db"]]
         table = parse_gbp(case["input"], dict(dc["text"]))
-        if table != dc["text"]:
-            stats["inputs_with_own_binary_parameters"] = stats.get("inputs_with_own_binary_parameters", 0) + 1
-            md = map_diff(res["kmap"], table)
+        crit = parse_crit(case["input"], {k: list(v) for k, v in dc["crit"].items()})
+        if table != dc["text"] or crit != dc["crit"]:
+            key = "inputs_with_own_binary_parameters" if table != dc["text"] else "inputs_with_own_critical_constants"
+            stats[key] = stats.get(key, 0) + 1
+            md = map_diff(res["kmap"], table) or crit_diff(res["glines"], crit)
             if (md or not symmetric_in_lean(ctx, res["kmap"])) and map_broken is None:
-                map_broken = {"kind": "real", "case": dict(case), "relation": "engine map vs GAS_BINARY_PARAMETERS text", "difference": md}
-        checks, cnt = judge(ctx, case, res, pre_lines(dc["gas_lines"], table))
+                map_broken = {"kind": "real", "case": dict(case), "relation": "engine records vs PHASES / GAS_BINARY_PARAMETERS text", "difference": md}
+        checks, cnt = judge(ctx, case, res, pre_lines(crit_lines(crit), table))
         for k, v in cnt.items():
             cnt_all[k] = cnt_all.get(k, 0) + v
         if checks:
             judged += 1
         for name, val, tol, msg in checks:
-            if name == "FINDING":
-                ctx.finding(FINDING_KEY, msg, {"kind": "real", "case": dict(case), "minimal_replay": MINIMAL_FINDING})
+            if name.startswith("FINDING:"):
+                key = name.split(":", 1)[1]
+                ctx.finding(key, msg, {"kind": "real", "case": dict(case),
+                                       "minimal_replay": MINIMAL_FINDING if key == FINDING_KEY else MINIMAL_FINDING2})
                 stats["known_departure_rows"] = stats.get("known_departure_rows", 0) + 1
                 continue
             r = rels.setdefault(name, {"n": 0, "max": 0.0})
@@ -606,7 +757,7 @@ def real_runs(ctx, exe, ok):
         if judged == 1 and checks:
             ctx.sample({"real_input": case["input"].splitlines()[:14], "relations_checked": sorted({c[0] for c in checks})})
     if map_broken and not ctx.violations:
-        ctx.violation("after a run with GAS_BINARY_PARAMETERS in the input the engine's map differs from the text / is not symmetric "
+        ctx.violation("after a run with PHASES / GAS_BINARY_PARAMETERS in the input the engine's records differ from the text / the map is not symmetric "
                       "(no run contradicting the property's relations was found): " + str(map_broken["difference"]),
                       map_broken, found_input=False)
     return len(cases), judged, hist, stats, rels, cnt_all
@@ -621,6 +772,7 @@ def run(ctx):
     try:
         ev1, d1, hist1 = tie_calc_pr(ctx, exe, ok)
         ctx.cov["calc_PR_tie"] = hist1
+        ev1 += tie_gate_constants(ctx)
         ev2 = d2 = 0
         if not ctx.violations or not ok:
             ev2, d2, hist2, stats, rels, cnt = real_runs(ctx, exe, ok)
@@ -674,7 +826,7 @@ def _replay(ctx, exe, data):
         db = data["db"]
         db = ("text", db["synthetic"], "replay") if isinstance(db, dict) else db
         dc = db_consts(exe, db)
-        md = map_diff(dc["engine"], dc["text"])
+        md = map_diff(dc["engine"], dc["text"]) or crit_diff(dc["engine_gas_lines"], dc["crit"])
         sym = symmetric_in_lean(ctx, dc["engine"])
         print("engine map vs text:", md, "| symmetricTab:", sym)
         if md or not sym:
@@ -686,8 +838,9 @@ def _replay(ctx, exe, data):
         if res["rc"] == 0:
             dc = db_consts(exe, case["db"])
             table = parse_gbp(case["input"], dict(dc["text"]))
-            print("engine map vs text:", map_diff(res["kmap"], table))
-            pre = pre_lines(dc["gas_lines"], table)
+            crit = parse_crit(case["input"], {k: list(v) for k, v in dc["crit"].items()})
+            print("engine records vs text:", map_diff(res["kmap"], table) or crit_diff(res["glines"], crit))
+            pre = pre_lines(crit_lines(crit), table)
             checks, cnt = judge(ctx, case, res, pre)
             for name, val, tol, msg in checks:
                 print(f"  {name}: {val:.3g} (tol {tol})" + (f"  FAIL {msg}" if msg else ""))
